@@ -104,3 +104,11 @@ def _wave_eval_src():
     from translate import gen_wave_eval
     from vcheck import core
     return gen_wave_eval.generate(os.path.join(core.REPO, 'src', 'kyupy', 'wave_sim.py'))
+
+
+@register('WaveDriversSrc')
+def _wave_drivers_src():
+    import os
+    from translate import gen_wave_drivers
+    from vcheck import core
+    return gen_wave_drivers.generate(os.path.join(core.REPO, 'src', 'kyupy', 'wave_sim.py'))
